@@ -31,9 +31,20 @@ import (
 
 var syncMethods = map[string]bool{
 	"Load": true, "Store": true, "Swap": true, "CompareAndSwap": true, "Add": true, "And": true, "Or": true,
-	"Lock": true, "Unlock": true, "RLock": true, "RUnlock": true, "TryLock": true, "TryRLock": true,
-	"Do": true, "LoadOrStore": true, "LoadAndDelete": true, "CompareAndDelete": true, "Range": true,
+	"TryLock": true, "TryRLock": true,
+	"LoadOrStore": true, "LoadAndDelete": true, "CompareAndDelete": true, "Range": true,
 }
+
+// Lock-like calls are rewritten as expressions (see lockRewrites): the
+// scheduler must never switch tasks while the running task holds a real
+// lock - another task would block on it for good - so the wrappers keep
+// a per-task lock depth and yields are suppressed inside critical
+// sections. x.Lock() becomes verifSyncLock(x.Lock) (yield, then lock,
+// depth+1), x.Unlock() becomes verifSyncUnlock(x.Unlock) (unlock,
+// depth-1; a method value binds its receiver where the original
+// evaluated it, so `defer mu.Unlock()` keeps its meaning), and
+// once.Do(f) becomes verifSyncDo(once.Do, f) (yield, depth+1 around).
+var lockMethods = map[string]string{"Lock": "verifSyncLock", "RLock": "verifSyncLock", "Unlock": "verifSyncUnlock", "RUnlock": "verifSyncUnlock"}
 
 func isSyncCall(c *ast.CallExpr) bool {
 	sel, ok := c.Fun.(*ast.SelectorExpr)
@@ -123,6 +134,30 @@ func main() {
 			return nil
 		}
 		var offsets []int
+		type rewrite struct {
+			from, to int
+			text     string
+		}
+		var rewrites []rewrite
+		off := func(p token.Pos) int { return fset.Position(p).Offset }
+		ast.Inspect(f, func(x ast.Node) bool {
+			c, ok := x.(*ast.CallExpr)
+			if !ok {
+				return true
+			}
+			sel, ok := c.Fun.(*ast.SelectorExpr)
+			if !ok {
+				return true
+			}
+			fun := string(src[off(c.Fun.Pos()):off(c.Fun.End())])
+			if w, ok := lockMethods[sel.Sel.Name]; ok && len(c.Args) == 0 {
+				rewrites = append(rewrites, rewrite{off(c.Pos()), off(c.End()), w + "(" + fun + ")"})
+			} else if sel.Sel.Name == "Do" && len(c.Args) == 1 {
+				arg := string(src[off(c.Args[0].Pos()):off(c.Args[0].End())])
+				rewrites = append(rewrites, rewrite{off(c.Pos()), off(c.End()), "verifSyncDo(" + fun + ", " + arg + ")"})
+			}
+			return true
+		})
 		visitList := func(list []ast.Stmt) {
 			for _, s := range list {
 				if headerHasSyncCall(s) {
@@ -141,13 +176,37 @@ func main() {
 			}
 			return true
 		})
-		if len(offsets) == 0 {
+		if len(offsets) == 0 && len(rewrites) == 0 {
 			return nil
 		}
-		sort.Sort(sort.Reverse(sort.IntSlice(offsets)))
-		b := src
+		// apply all edits from the end of the file backwards; nested
+		// rewrites (a Do whose argument contains a Lock) are applied
+		// innermost first because inner calls end earlier... to keep it
+		// simple, a rewrite that encloses another one is dropped
+		var edits []rewrite
 		for _, o := range offsets {
-			b = append(b[:o:o], append([]byte("verifSyncYield(); "), b[o:]...)...)
+			edits = append(edits, rewrite{o, o, "verifSyncYield(); "})
+		}
+		for i, r := range rewrites {
+			enclosing := false
+			for j, q := range rewrites {
+				if i != j && r.from <= q.from && q.to <= r.to {
+					enclosing = true
+				}
+			}
+			if !enclosing {
+				edits = append(edits, r)
+			}
+		}
+		sort.Slice(edits, func(a, c int) bool {
+			if edits[a].from != edits[c].from {
+				return edits[a].from > edits[c].from
+			}
+			return edits[a].to > edits[c].to
+		})
+		b := src
+		for _, ed := range edits {
+			b = append(b[:ed.from:ed.from], append([]byte(ed.text), b[ed.to:]...)...)
 		}
 		rel, _ := filepath.Rel(*repo, path)
 		dst := filepath.Join(*out, rel)
@@ -158,7 +217,7 @@ func main() {
 		}
 		overlay[path] = dst
 		pkgs[filepath.Dir(path)] = f.Name.Name
-		sites += len(offsets)
+		sites += len(offsets) + len(rewrites)
 		report = append(report, fmt.Sprintf("%s:%d", rel, len(offsets)))
 		return nil
 	})
@@ -182,12 +241,15 @@ func main() {
 	}
 	for dir, name := range pkgs {
 		write(filepath.Join(dir, "verif_syncyield_gen.go"),
-			"package "+name+"\n\nimport verifyield \""+mod+"/internal/verifyield\"\n\nfunc verifSyncYield() { verifyield.Yield() }\n")
+			"package "+name+"\n\nimport verifyield \""+mod+"/internal/verifyield\"\n\nfunc verifSyncYield() { verifyield.Yield() }\n\n"+
+				"func verifSyncLock(lock func()) { verifyield.Yield(); lock(); verifyield.Depth(1) }\n\n"+
+				"func verifSyncUnlock(unlock func()) { unlock(); verifyield.Depth(-1) }\n\n"+
+				"func verifSyncDo[T any](do func(T), f T) { verifyield.Yield(); verifyield.Depth(1); defer verifyield.Depth(-1); do(f) }\n")
 	}
 	write(filepath.Join(*repo, "internal", "verifyield", "yield.go"),
-		"// Package verifyield exists only in the simulator's build overlay.\npackage verifyield\n\n// Hook is called before every statement of the library that uses sync or sync/atomic.\nvar Hook func()\n\nfunc Yield() {\n\tif h := Hook; h != nil {\n\t\th()\n\t}\n}\n")
+		"// Package verifyield exists only in the simulator's build overlay.\npackage verifyield\n\n// Hook is called before every statement of the library that uses sync or sync/atomic.\nvar Hook func()\n\n// DepthHook is told when the library takes (+1) or releases (-1) a lock.\nvar DepthHook func(int)\n\nfunc Yield() {\n\tif h := Hook; h != nil {\n\t\th()\n\t}\n}\n\nfunc Depth(d int) {\n\tif h := DepthHook; h != nil {\n\t\th(d)\n\t}\n}\n")
 	write(filepath.Join(*repo, "verifhooks", "syncyield_gen.go"),
-		"//go:build verif\n\npackage verifhooks\n\nimport verifyield \""+mod+"/internal/verifyield\"\n\n// SetSyncYieldHook installs the yield hook of the build overlay.\nfunc SetSyncYieldHook(f func()) { verifyield.Hook = f }\n")
+		"//go:build verif\n\npackage verifhooks\n\nimport verifyield \""+mod+"/internal/verifyield\"\n\n// SetSyncYieldHook installs the yield hook of the build overlay.\nfunc SetSyncYieldHook(f func()) { verifyield.Hook = f }\n\n// SetLockDepthHook installs the lock-depth hook of the build overlay.\nfunc SetLockDepthHook(f func(int)) { verifyield.DepthHook = f }\n")
 	ob, _ := json.MarshalIndent(map[string]interface{}{"Replace": overlay}, "", " ")
 	if err := os.WriteFile(filepath.Join(*out, "overlay.json"), ob, 0o644); err != nil {
 		fmt.Fprintln(os.Stderr, err)
